@@ -850,6 +850,24 @@ class Normaliser:
         nested `if A: if B: S` (no else) -> `if A and B: S`"""
         def uses(name, nodes):
             return [x for n_ in nodes for x in ast.walk(n_) if isinstance(x, ast.Name) and x.id == name]
+        # `for i, v in enumerate(L[a:], start=a)` -> `for i in range(a, len(L)): v = L[i]`
+        it0 = st.iter
+        if isinstance(it0, ast.Call) and isinstance(it0.func, ast.Name) and it0.func.id == 'enumerate' and it0.args and isinstance(it0.args[0], ast.Subscript) \
+                and isinstance(it0.args[0].slice, ast.Slice) and it0.args[0].slice.upper is None and it0.args[0].slice.step is None \
+                and isinstance(it0.args[0].slice.lower, ast.Constant) and chain_attrs(it0.args[0].value) is not None \
+                and isinstance(st.target, ast.Tuple) and len(st.target.elts) == 2 and all(isinstance(e, ast.Name) for e in st.target.elts):
+            start = it0.args[1] if len(it0.args) > 1 else next((k.value for k in it0.keywords if k.arg == 'start'), None)
+            a0 = it0.args[0].slice.lower
+            if isinstance(start, ast.Constant) and start.value == a0.value:
+                Lx = it0.args[0].value
+                iv, ev = st.target.elts[0].id, st.target.elts[1].id
+                st.iter = ast.copy_location(ast.Call(func=ast.Name(id='range', ctx=ast.Load()),
+                                                     args=[copy.deepcopy(a0), ast.Call(func=ast.Name(id='len', ctx=ast.Load()), args=[copy.deepcopy(Lx)], keywords=[])], keywords=[]), it0)
+                st.target = ast.copy_location(ast.Name(id=iv, ctx=ast.Store()), st.target)
+                st.body.insert(0, ast.copy_location(ast.Assign(targets=[ast.Name(id=ev, ctx=ast.Store())],
+                                                               value=ast.Subscript(value=copy.deepcopy(Lx), slice=ast.Name(id=iv, ctx=ast.Load()), ctx=ast.Load())), st))
+                ast.fix_missing_locations(st)
+                self.note('N3', 'enumerate(L[a:], start=a) -> range(a, len(L))')
         L = None
         idx = elem = None
         it = st.iter
@@ -2167,9 +2185,13 @@ class _Reflect(ast.NodeTransformer):
 
 
 def normalise(trees: Dict[str, ast.Module]) -> Normaliser:
-    from . import flatten
+    from . import flatten, desugar
     flog: List[str] = []
+    dstats = desugar.desugar(trees, flog)
     fstats = flatten.flatten(trees, anchor_vocabulary(), flog)
+    for k, v in dstats.items():
+        if v:
+            fstats['desugar_' + k] = v
     nrec = flatten.records_to_tuples(trees, flog)
     if nrec:
         fstats['records_to_tuples'] = nrec
